@@ -190,6 +190,7 @@ func (r *FeatureLocal) addPendingApproval(msg *api.Message) {
 	ski := msg.DeviceRemote.Ski()
 
 	newTimer := time.AfterFunc(r.writeTimeout, func() {
+		verifPoint("WriteApproval.timerFired", ski)
 		r.muxResponseCB.Lock()
 		delete(r.pendingWriteApprovals[ski], *msg.RequestHeader.MsgCounter)
 		r.muxResponseCB.Unlock()
@@ -219,6 +220,8 @@ func (r *FeatureLocal) ApproveOrDenyWrite(msg *api.Message, err model.ErrorType)
 	count := len(r.writeApprovalCallbacks)
 	r.muxResponseCB.Unlock()
 
+	verifPoint("ApproveOrDenyWrite.afterLookup", ski, ok)
+
 	// if there is no timer running, we are too late and error has already been sent
 	if !ok || timer == nil {
 		return
@@ -242,6 +245,7 @@ func (r *FeatureLocal) ApproveOrDenyWrite(msg *api.Message, err model.ErrorType)
 	}
 
 	timer.Stop()
+	verifPoint("ApproveOrDenyWrite.afterStop", ski)
 
 	delete(r.writeApprovalReceived[ski], *msg.RequestHeader.MsgCounter)
 
